@@ -27,6 +27,79 @@ def show_log(ev):
     return " ".join(out)
 
 
+EXPORT_NAMES = ["tech:writemodel", "writeprob", "writemodel", "tech:exportfile"]
+ONLY_NAMES = ["tech:writemodelonly", "justwriteprob", "justwritemodel"]
+DRV_MODEL = {"vars": [{"lb": 0, "ub": 10, "int": False}, {"lb": 0, "ub": 10, "int": True}],
+             "cons": [{"lb": 1, "ub": None, "lin": [[0, 1], [1, 1]]}],
+             "objs": [{"max": False, "lin": [[0, 1], [1, 1]]}]}
+DRV_EVENTS = ("FinishOptionParsing", "SetInterrupter", "WriteProblem", "Solve", "Raise", "Raised", "Poll", "ReportResults")
+
+
+def driver_stage(tier, v, d):
+    """Whole driver runs (BackendApp + StdBackend::RunFromNLFile with the scripted backend): every scenario of
+    DrvSignals.tla - export mode x place where 0..3 signals arrive - run for real, the recorded events validated
+    as a behaviour of DrvSignals."""
+    import drv
+    mc = tlc("MCDrvSignals", "MCDrvSignals.cfg", cwd=CORE, workers=NPROC)
+    tlc_must_pass(mc, "MCDrvSignals")
+    skip = tlc("MCDrvSignals", "MCDrvSignalsSkip.cfg", cwd=CORE, workers=NPROC)
+    if skip.rc != 12 or skip.violated != "InvInterruptible":
+        raise Broken("MCDrvSignals: a run that reaches Solve without registration should violate InvInterruptible: rc=%s %s" % (skip.rc, skip.violated))
+    scen = sorted(printed_json(mc, "CASE"), key=lambda c: json.dumps(c, sort_keys=True))
+    if len(scen) != 69:
+        raise Broken("MCDrvSignals produced %d scenarios (69 expected)" % len(scen))
+    exe = targets.get("h_drv_asan" if tier == "thorough" else "h_drv")
+    cases = []
+    for i, sc in enumerate(scen):
+        names = [] if sc["mode"] == "none" else EXPORT_NAMES if sc["mode"] == "export" else ONLY_NAMES
+        reps = range(len(names)) if (names and tier == "thorough") else [i % len(names)] if names else [0]
+        for r in reps:
+            opts = ["%s=f%d.%s" % (names[(r + k) % len(names)], k, ("lp", "mps")[k]) for k in range(sc["nfiles"])] if names else []
+            ans = "status 0 scripted\nprimal auto\npoll 2\n"
+            if sc["nsig"]:
+                ans += "sig %s %s %d\n" % (sc["where"], sc["sig"], sc["nsig"])
+            cases.append({"id": len(cases), "model": DRV_MODEL, "answer": ans, "opts": opts, "scenario": sc})
+    results = drv.run_cases(exe, PID, cases, timeout=60)
+    lines = []
+    for c, r in zip(cases, results):
+        ev = [e for e in r["rec"] if e.get("e") in DRV_EVENTS]
+        out = []
+        for j, e in enumerate(ev):
+            if e["e"] == "Raise":
+                if j == len(ev) - 1:
+                    out.append({"e": "Killed", "rc": r["rc"] if not r["hang"] else -999})
+                continue
+            out.append(e)
+        if not (ev and ev[-1]["e"] == "Raise"):
+            out.append({"e": "End", "rc": r["rc"] if not r["hang"] else -999, "sol": bool(r["sol_present"] and r["sol"] is not None)})
+        lines.append({"e": "Run", "id": c["id"], "s": c["scenario"], "ev": out})
+    tp = os.path.join(d, "drv-trace-%s.ndjson" % tier)
+    with open(tp, "w") as f:
+        for e in lines:
+            f.write(json.dumps(e) + "\n")
+    ok, res = validate_trace("TraceDrvSignals", "TraceDrvSignals.cfg", tp, cwd=CORE, xmx="3g")
+    done = printed_json(res, "DONE")
+    if len(done) != 1 or done[0]["n"] != len(lines):
+        raise Broken("TraceDrvSignals did not consume the trace\n" + res.out[-2500:])
+    delivered = sum(1 for e in lines for x in e["ev"] if x["e"] in ("Raised", "Killed"))
+    cbs = sum(x.get("cb", 0) for e in lines for x in e["ev"] if x["e"] == "Raised")
+    if not printed_json(res, "BAD") and (delivered < 100 or cbs < 50):
+        raise Broken("driver stage: too few signals delivered / callbacks seen (%d / %d)" % (delivered, cbs))
+    for b in printed_json(res, "BAD"):
+        c, r = cases[b["id"]], results[b["id"]]
+        sc = c["scenario"]
+        why = "+".join(sorted(b["why"]))
+        key = "drv:%s:%s@%s" % (why, sc["mode"], sc["where"] if sc["nsig"] else "-")
+        evs = lines[b["line"] - 1]["ev"]
+        v.violation(key, "driver run (options %s; %d x SIG%s arriving in '%s'): %s at event %d of [%s] (state before: %s); exit status %s, stderr: %s"
+                    % (" ".join(c["opts"]) or "none", sc["nsig"], sc["sig"], sc["where"], why, b["at"],
+                       " ".join(x["e"] + ("(cb=%d,stop=%d)" % (x["cb"], x["stop"]) if x["e"] == "Raised" else "") for x in evs), b["pc"], r["rc"], r["stderr"][-300:]),
+                    {"scenario": sc, "opts": c["opts"], "answer": c["answer"], "events": evs, "rc": r["rc"]})
+    return {"module": "DrvSignals", "scenarios": len(scen), "runs": len(cases), "signals_delivered": delivered, "callbacks_seen": cbs,
+            "design_check_states": mc.distinct, "self_test": "Solve without registration violates InvInterruptible",
+            "states": mc.distinct + skip.distinct + res.distinct, "transitions": mc.generated + skip.generated + res.generated}
+
+
 def run(tier):
     t0 = time.time()
     thorough = tier == "thorough"
@@ -111,6 +184,7 @@ def run(tier):
     for k in sorted(found):
         n, desc, payload = found[k]
         v.violation(k, "%s [%d schedule(s)]" % (desc, n), payload)
+    drvinfo = driver_stage(tier, v, d)
     rcode, nnew = v.finish()
     if found:
         log("violation keys (%d): %s" % (len(found), " ".join(sorted(found))))
@@ -126,7 +200,7 @@ def run(tier):
     write_evidence(PID, tier, {
         "states": mc.distinct + before.distinct + gen.distinct + sum(r.distinct for r in results),
         "transitions": mc.generated + before.generated + gen.generated + sum(r.generated for r in results),
-        "traces_validated_against_impl": len(cases),
+        "traces_validated_against_impl": len(cases) + drvinfo["runs"],
         "samples": [{"nreg": cases[len(cases) // 2]["nreg"], "sched": cases[len(cases) // 2]["sched"]},
                     show_log(runs[len(runs) // 2]["ev"]), show_log(runs[-1]["ev"])],
         "schedules_by_number_of_signals": bysig,
@@ -140,6 +214,7 @@ def run(tier):
                          "self_test_pre_repair_order_violates": before.violated},
         "model_agreement": {"schedules": len(cases), "log_exactly_as_predicted": agree, "same_violated_invariants": predicted},
         "rejected_schedules": nbad, "violation_keys": len(found), "violations_new": nnew,
+        "driver_level": drvinfo,
     }, time.time() - t0, violations=nnew,
         assumptions=["signals are raised synchronously (raise()) at the call-outs after each store; between two stores the state of the handler does not change, so these are all distinguishable arrival instants",
                      "a delivery counts once the disposition observed at the label is the handler (sigaction query), not from the name of the label",
